@@ -77,14 +77,24 @@ let () =
          | None -> incr unknown; Printf.printf "%s\tNOOP\t%s\n" id op
          | Some f ->
            Buffer.clear b;
-           (try print_groups b (f (parse_groups args))
+           let impl = match rest with x :: _ -> x | [] -> "" in
+           (* postcondition ops: the model is a predicate evaluated on the implementation's OUTPUT
+              (".post1": output only; ".post": args, separator group [-7777], output) and must return 1 *)
+           let n = String.length op in
+           let post1 = n > 6 && String.sub op (n - 6) 6 = ".post1" in
+           let post = n > 5 && String.sub op (n - 5) 5 = ".post" in
+           let skip = String.equal impl "?" in
+           let input = if skip then [] else if post1 then parse_groups impl
+             else if post then parse_groups args @ [[coqz_of_string "-7777"]] @ parse_groups impl
+             else parse_groups args in
+           (try print_groups b (f input)
             with Stack_overflow -> Buffer.add_string b "STACK_OVERFLOW");
            let m = Buffer.contents b in
+           let impl = if (post1 || post) && not skip then "1;" else impl in
            if mode = "eval" then Printf.printf "%s\t%s\t%s\n" id op m
            else begin
-             let impl = match rest with x :: _ -> x | [] -> "" in
              let (o, d) = try Hashtbl.find per_op op with Not_found -> (0, 0) in
-             if String.equal impl m then (incr ok; Hashtbl.replace per_op op (o + 1, d))
+             if String.equal impl m || String.equal impl "?" then (incr ok; Hashtbl.replace per_op op (o + 1, d))
              else (incr diff; Hashtbl.replace per_op op (o, d + 1);
                    Printf.printf "%s\tDIFF\t%s\t%s\n" id op m)
            end)
